@@ -2,7 +2,12 @@
 
 package store
 
-import "github.com/google/inverting-proxy/app/types"
+import (
+	"context"
+	"time"
+
+	"github.com/google/inverting-proxy/app/types"
+)
 
 // Exports for the verification drivers (injected by `go build -overlay`; not part of the repo).
 
@@ -11,3 +16,13 @@ func VerifMostSpecificMatchingBackend(path string, backends []*types.Backend) (s
 }
 
 const VerifFieldByteLimit = fieldByteLimit
+
+// VerifBlobRoundTrip stores data the way requests and responses are stored (newBlob) and reads it back (blob.read).
+func VerifBlobRoundTrip(ctx context.Context, data []byte, name string) (back []byte, inlined int, parts []string, err error) {
+	b, err := newBlob(ctx, data, name, time.Now())
+	if err != nil {
+		return nil, 0, nil, err
+	}
+	back, err = b.read(ctx)
+	return back, len(b.Inlined), b.Parts, err
+}
